@@ -1209,6 +1209,21 @@ impl<A: Ar> Exec<A> {
             _ => opts.maybe_capacity(None),
         };
         let file_len_before = std::fs::metadata(&path).map(|m| m.len()).unwrap_or(0);
+        // create_new on an existing file must be refused and must leave the file alone
+        if (self.step + 3 * self.stats.reopens as usize) % 7 == 2 {
+            let before = std::fs::read(&path).unwrap_or_default();
+            let o2 = if mode % 4 < 2 { opts.with_write(true).with_create_new(true) } else { opts.with_write(true).with_create_new(true) };
+            let r = open_file::<A>(o2, mode % 2, &path, false);
+            let after = std::fs::read(&path).unwrap_or_default();
+            if r.is_ok() {
+                self.v("C05", "create_new_opened_existing", "an open with create_new(true) succeeded on an existing arena file".into());
+                self.dead = true;
+                return Obs { result: "crash:create_new".into(), ..Default::default() };
+            }
+            if before != after {
+                self.v("C05", "create_new_altered_file", format!("a refused open with create_new(true) changed the existing file ({} -> {} bytes)", before.len(), after.len()));
+            }
+        }
         let via_builder = (self.step + self.stats.reopens as usize) % 3 == 0;
         let opts = if mode % 4 < 2 { opts.with_write(true) } else { opts };
         // `create` on an existing file must open it as it is
@@ -1258,6 +1273,14 @@ impl<A: Ar> Exec<A> {
         };
         let _ = want_cap;
         self.data_offset = a.data_offset();
+        // ---- C16: descriptive accessors report the mode the arena was opened with
+        let want_ro = mode % 4 >= 2;
+        if a.read_only() != want_ro || !a.unify() || !a.is_map() || !a.is_ondisk() || a.is_inmemory() || a.is_map_anon() || !a.is_map_file() || a.path().is_none() || a.version() != 0 || a.reserved_bytes() != self.cfg.reserved as usize || a.reserved_slice().len() != self.cfg.reserved as usize {
+            self.v("C16", "accessors_after_reopen", format!("after reopen (mode {}): read_only {} unify {} is_map {} is_ondisk {} is_map_anon {} is_map_file {} path {} version {} reserved {}", mode % 4, a.read_only(), a.unify(), a.is_map(), a.is_ondisk(), a.is_map_anon(), a.is_map_file(), a.path().is_some(), a.version(), a.reserved_bytes()));
+        }
+        if a.remaining() != a.capacity().saturating_sub(a.allocated()) {
+            self.v("C16", "remaining", "remaining() != capacity() - allocated() after reopen".into());
+        }
         self.obs("ok".into(), None, None)
     }
 
